@@ -30,6 +30,17 @@ extern "C" __attribute__((weak)) void coloquinte_verif_shift_hook(
     const long long * /*arcCost*/, const long long * /*arcFlow*/) {}
 #endif
 
+#ifdef COLOQUINTE_VERIF
+// Verification call-out, compiled only with -DCOLOQUINTE_VERIF. It is invoked
+// at the end of RowReordering::run with the number of regions, the number of
+// cells registered, the number of leaves of the search that were evaluated,
+// whether an improvement was written back and the best value. The default does
+// nothing; a test harness overrides it with a non-weak definition.
+extern "C" __attribute__((weak)) void coloquinte_verif_reorder_hook(
+    int /*nbRegions*/, int /*nbCells*/, long long /*nbLeaves*/,
+    int /*improvement*/, long long /*bestValue*/) {}
+#endif
+
 namespace coloquinte {
 
 void DetailedPlacer::legalize(
@@ -679,6 +690,9 @@ class RowReordering {
   std::vector<std::vector<int> > bestOrder_;
   std::vector<std::vector<int> > bestPositions_;
   bool improvement_;
+#ifdef COLOQUINTE_VERIF
+  long long verifNbLeaves_ = 0;
+#endif
 };
 
 RowReordering::RowReordering(DetailedPlacement &placement, IncrNetModel &xtopo,
@@ -745,6 +759,10 @@ void RowReordering::run() {
   std::sort(cells_.begin(), cells_.end(), std::greater<int>());
   runRegionChoice(cells_.size() - 1);
   writeback();
+#ifdef COLOQUINTE_VERIF
+  coloquinte_verif_reorder_hook(nbRegions(), nbCells(), verifNbLeaves_,
+                                improvement_ ? 1 : 0, bestVal_);
+#endif
 }
 
 void RowReordering::runRegionChoice(int cellInd) {
@@ -776,6 +794,9 @@ void RowReordering::runRegionChoice(int cellInd) {
 void RowReordering::runOrdering(int rowInd) {
   if (rowInd < 0) {
     // Leaf case: evaluate
+#ifdef COLOQUINTE_VERIF
+    ++verifNbLeaves_;
+#endif
     long long value = xtopo_.value() + ytopo_.value();
     if (value < bestVal_) {
       bestVal_ = value;
